@@ -61,90 +61,7 @@ func runC10(c *engine.Ctx, tier string) {
 	c.Guard(engine.Guard{ID: "C10.1a", Pkg: pkgMastershipCtl, None: true, Rule: "K-own(op)",
 		Sel: engine.Sel{Field: fTerm, Lit: true, Filter: func(p *engine.Path, i int) bool { return p.Events[i].Op != "++" }},
 		Why: "the term only ever grows by one: any other write could repeat or lower a term"})
-	election := func(p *engine.Path, i int) (notLive, some, none bool) {
-		cfg := c.Al.Resolve("CFG")
-		for _, l := range engine.CondsBefore(p, i) {
-			if strings.HasPrefix(l.L, "has(") && strings.Contains(l.L, "[topo.ID("+cfg+".Status.Mastership.Master)]") && l.R == "true" && l.Mask == 5 {
-				notLive = true
-			}
-			if strings.HasPrefix(l.L, "len(make(map[topo.ID]topo.Object)") && l.R == "0" {
-				if l.Mask == 5 || l.Mask == 4 {
-					some = true
-				}
-				if l.Mask == 2 {
-					none = true
-				}
-			}
-		}
-		return
-	}
-	o := c.Custom("C10.1b", "K-guard(custom)", "Term++ ⇒ recorded master not among the target's live relations ∧ at least one relation exists; Master := non-empty ⇒ same path did Term++; Master := \"\" ⇒ no relation left",
-		"a new term begins exactly when mastership is assigned again after the controlling connection was lost")
-	paths, err := c.A.Paths(pkgMastershipCtl)
-	if err != nil {
-		o.Undecided(pkgMastershipCtl, err.Error())
-	} else {
-		for _, s := range engine.FindSites(paths, c.Match(engine.Sel{Field: fTerm})) {
-			o.Site(c.P.Pos(s.Ev().Pos) + " " + c.Render(c.A.DescribeEvent(s.Ev())))
-			for _, ref := range s.Refs {
-				o.Eval(1)
-				nl, some, _ := election(ref.Path, ref.Idx)
-				if !nl || !some {
-					o.Fail(&engine.Violation{Key: engine.SiteKey(ref.Path, ref.Idx, "write "+fTerm), Pos: c.P.Pos(s.Ev().Pos), Func: engine.FuncChain(ref.Path, ref.Idx),
-						Msg: "the term is incremented on a path that does not establish 'recorded master is not a live relation of the target' and 'a live relation exists'", Found: c.RenderConds(engine.CondsBefore(ref.Path, ref.Idx))})
-					break
-				}
-			}
-		}
-		for _, s := range engine.FindSites(paths, c.Match(engine.Sel{Field: fMaster})) {
-			e := s.Ev()
-			o.Site(c.P.Pos(e.Pos) + " " + c.Render(c.A.DescribeEvent(e)))
-			for _, ref := range s.Refs {
-				o.Eval(1)
-				p := ref.Path
-				if e.RHS == `""` {
-					nl, _, none := election(p, ref.Idx)
-					if !nl || !none {
-						o.Fail(&engine.Violation{Key: engine.SiteKey(p, ref.Idx, "write "+fMaster+" := \"\""), Pos: c.P.Pos(e.Pos), Func: engine.FuncChain(p, ref.Idx),
-							Msg: "the master is cleared although the path does not establish that no live relation is left", Found: c.RenderConds(engine.CondsBefore(p, ref.Idx))})
-						break
-					}
-					continue
-				}
-				inc := false
-				for j := 0; j < ref.Idx; j++ {
-					w := &p.Events[j]
-					if w.Kind == engine.EvWrite && w.Field == fTerm && w.Op == "++" && w.LHS == c.Al.Expand("@CFG.Status.Mastership.Term") {
-						inc = true
-					}
-				}
-				// the elected relation is an element of the slice filled from the filtered relation set
-				fromSet := strings.HasPrefix(e.RHS, "string(?relations@") && strings.HasSuffix(e.RHS, ".ID)")
-				if !inc || !fromSet {
-					o.Fail(&engine.Violation{Key: engine.SiteKey(p, ref.Idx, "write "+fMaster+" := relation"), Pos: c.P.Pos(e.Pos), Func: engine.FuncChain(p, ref.Idx),
-						Msg: "a master is assigned without incrementing the term on the same path, or not from the filtered relation set (RHS " + c.Render(e.RHS) + ")"})
-					break
-				}
-			}
-		}
-		// the candidate slice is filled only from the filtered map, the map only under the target test
-		for _, s := range engine.FindSites(paths, func(p *engine.Path, i int) bool {
-			e := &p.Events[i]
-			return e.Kind == engine.EvWrite && e.Local == nil && e.Field == "" && strings.HasPrefix(e.LHS, "make(map[topo.ID]topo.Object)")
-		}) {
-			o.Site(c.P.Pos(s.Ev().Pos) + " " + c.Render(c.A.DescribeEvent(s.Ev())))
-			want, _ := engine.ParseClause("topo.ID(@CFG.TargetID) == {elem(@RELS)}topo.Object.GetRelation().TgtEntityID", c.Al, c.P)
-			for _, ref := range s.Refs {
-				o.Eval(1)
-				if !engine.Entails(engine.CondsBefore(ref.Path, ref.Idx), want, c.P.Domain) || s.Ev().RHS != c.Al.Expand("elem(@RELS)") {
-					o.Fail(&engine.Violation{Key: engine.SiteKey(ref.Path, ref.Idx, "fill candidate set"), Pos: c.P.Pos(s.Ev().Pos), Func: engine.FuncChain(ref.Path, ref.Idx),
-						Msg: "a relation enters the candidate set without the test that it targets this configuration's target, or the set is not filled from the CONTROLS/self-filtered topo list", Found: c.RenderConds(engine.CondsBefore(ref.Path, ref.Idx))})
-					break
-				}
-			}
-		}
-	}
-	o.Done(4)
+	electionRule(c, "C10.1b")
 	// configuration controller mirrors term/master only from the live values
 	c.Guard(engine.Guard{ID: "C10.1c", Pkg: pkgConfigCtl, None: true, Rule: "K-own(rhs)",
 		Sel: engine.Sel{Field: fTerm, NotRHS: "@CFG.Status.Mastership.Term", Lit: true},
@@ -242,4 +159,92 @@ func arbitration(c *engine.Ctx, id, pkg string, min int) {
 		}
 	}
 	o.Done(min)
+}
+
+// electionRule: a new term begins exactly when mastership is assigned again (shared by C10 and C04).
+func electionRule(c *engine.Ctx, id string) {
+	election := func(p *engine.Path, i int) (notLive, some, none bool) {
+		cfg := c.Al.Resolve("CFG")
+		for _, l := range engine.CondsBefore(p, i) {
+			if strings.HasPrefix(l.L, "has(") && strings.Contains(l.L, "[topo.ID("+cfg+".Status.Mastership.Master)]") && l.R == "true" && l.Mask == 5 {
+				notLive = true
+			}
+			if strings.HasPrefix(l.L, "len(make(map[topo.ID]topo.Object)") && l.R == "0" {
+				if l.Mask == 5 || l.Mask == 4 {
+					some = true
+				}
+				if l.Mask == 2 {
+					none = true
+				}
+			}
+		}
+		return
+	}
+	o := c.Custom(id, "K-guard(custom)", "Term++ ⇒ recorded master not among the target's live relations ∧ at least one relation exists; Master := non-empty ⇒ same path did Term++; Master := \"\" ⇒ no relation left",
+		"a new term begins exactly when mastership is assigned again after the controlling connection was lost")
+	paths, err := c.A.Paths(pkgMastershipCtl)
+	if err != nil {
+		o.Undecided(pkgMastershipCtl, err.Error())
+	} else {
+		for _, s := range engine.FindSites(paths, c.Match(engine.Sel{Field: fTerm})) {
+			o.Site(c.P.Pos(s.Ev().Pos) + " " + c.Render(c.A.DescribeEvent(s.Ev())))
+			for _, ref := range s.Refs {
+				o.Eval(1)
+				nl, some, _ := election(ref.Path, ref.Idx)
+				if !nl || !some {
+					o.Fail(&engine.Violation{Key: engine.SiteKey(ref.Path, ref.Idx, "write "+fTerm), Pos: c.P.Pos(s.Ev().Pos), Func: engine.FuncChain(ref.Path, ref.Idx),
+						Msg: "the term is incremented on a path that does not establish 'recorded master is not a live relation of the target' and 'a live relation exists'", Found: c.RenderConds(engine.CondsBefore(ref.Path, ref.Idx))})
+					break
+				}
+			}
+		}
+		for _, s := range engine.FindSites(paths, c.Match(engine.Sel{Field: fMaster})) {
+			e := s.Ev()
+			o.Site(c.P.Pos(e.Pos) + " " + c.Render(c.A.DescribeEvent(e)))
+			for _, ref := range s.Refs {
+				o.Eval(1)
+				p := ref.Path
+				if e.RHS == `""` {
+					nl, _, none := election(p, ref.Idx)
+					if !nl || !none {
+						o.Fail(&engine.Violation{Key: engine.SiteKey(p, ref.Idx, "write "+fMaster+" := \"\""), Pos: c.P.Pos(e.Pos), Func: engine.FuncChain(p, ref.Idx),
+							Msg: "the master is cleared although the path does not establish that no live relation is left", Found: c.RenderConds(engine.CondsBefore(p, ref.Idx))})
+						break
+					}
+					continue
+				}
+				inc := false
+				for j := 0; j < ref.Idx; j++ {
+					w := &p.Events[j]
+					if w.Kind == engine.EvWrite && w.Field == fTerm && w.Op == "++" && w.LHS == c.Al.Expand("@CFG.Status.Mastership.Term") {
+						inc = true
+					}
+				}
+				// the elected relation is an element of the slice filled from the filtered relation set
+				fromSet := strings.HasPrefix(e.RHS, "string(?relations@") && strings.HasSuffix(e.RHS, ".ID)")
+				if !inc || !fromSet {
+					o.Fail(&engine.Violation{Key: engine.SiteKey(p, ref.Idx, "write "+fMaster+" := relation"), Pos: c.P.Pos(e.Pos), Func: engine.FuncChain(p, ref.Idx),
+						Msg: "a master is assigned without incrementing the term on the same path, or not from the filtered relation set (RHS " + c.Render(e.RHS) + ")"})
+					break
+				}
+			}
+		}
+		// the candidate slice is filled only from the filtered map, the map only under the target test
+		for _, s := range engine.FindSites(paths, func(p *engine.Path, i int) bool {
+			e := &p.Events[i]
+			return e.Kind == engine.EvWrite && e.Local == nil && e.Field == "" && strings.HasPrefix(e.LHS, "make(map[topo.ID]topo.Object)")
+		}) {
+			o.Site(c.P.Pos(s.Ev().Pos) + " " + c.Render(c.A.DescribeEvent(s.Ev())))
+			want, _ := engine.ParseClause("topo.ID(@CFG.TargetID) == {elem(@RELS)}topo.Object.GetRelation().TgtEntityID", c.Al, c.P)
+			for _, ref := range s.Refs {
+				o.Eval(1)
+				if !engine.Entails(engine.CondsBefore(ref.Path, ref.Idx), want, c.P.Domain) || s.Ev().RHS != c.Al.Expand("elem(@RELS)") {
+					o.Fail(&engine.Violation{Key: engine.SiteKey(ref.Path, ref.Idx, "fill candidate set"), Pos: c.P.Pos(s.Ev().Pos), Func: engine.FuncChain(ref.Path, ref.Idx),
+						Msg: "a relation enters the candidate set without the test that it targets this configuration's target, or the set is not filled from the CONTROLS/self-filtered topo list", Found: c.RenderConds(engine.CondsBefore(ref.Path, ref.Idx))})
+					break
+				}
+			}
+		}
+	}
+	o.Done(4)
 }
